@@ -308,3 +308,54 @@ def _s_keys(eng, st, d):
 @spec('edge_list', lambda g: [tuple(e) for e in g.edges])
 def _s_edge_list(eng, st, g):
     return Val(_H.T_EDGELIST, st.heap.edges(g.t))
+
+
+# ---------------------------------------------------------------------------- weighted positions (C18)
+def _n_node_attrs(g, k):
+    import networkx as nx
+    return nx.get_node_attributes(g, k)
+
+
+@spec('node_attrs', _n_node_attrs)
+def _s_node_attrs(eng, st, g, k):
+    from . import models
+    return models.node_attr_dict(eng, st, g, _cstr(k))
+
+
+def _n_dvsum(d, k):
+    return sum(list(d.values())[:k])
+
+
+@spec('dvsum', _n_dvsum, ret=TReal)
+def _s_dvsum(eng, st, d, k):
+    """Sum of the first k values of a dict in key order (fold, unfolded once at each mentioned index)."""
+    F = _fold_uf('dvsum', d.ty.sort(), z3.RealSort())
+    kt = ops.to_int(k)
+    keys = d.ty.keys_ty.arr(d.ty.keys(d.t))
+    elem = d.ty.valmap(d.t)[keys[kt - 1]]
+    if d.ty.val is TInt:
+        elem = z3.ToReal(elem)
+    st.assume(z3.Implies(kt <= 0, F(d.t, kt) == 0), z3.Implies(kt > 0, F(d.t, kt) == F(d.t, kt - 1) + elem))
+    return Val(TReal, F(d.t, kt))
+
+
+def _n_wpsum(d, g, k):
+    return sum(g.nodes[n]['position'] * w for n, w in list(d.items())[:k])
+
+
+@spec('wpsum', _n_wpsum, ret=TReal)
+def _s_wpsum(eng, st, d, g, k):
+    """Sum over the first k entries (node, weight) of d of position(node in g) * weight."""
+    suffix, ty = _H.NODE_SCHEMAS[g.ty.schema]['position']
+    pos = st.heap.get('nv:' + suffix)[g.t]
+    key = ('wpsum', str(d.ty.sort()))
+    if key not in _FOLDS:
+        _FOLDS[key] = z3.Function('wpsum', d.ty.sort(), pos.sort(), z3.IntSort(), z3.RealSort())
+    F = _FOLDS[key]
+    kt = ops.to_int(k)
+    keys = d.ty.keys_ty.arr(d.ty.keys(d.t))
+    nk = keys[kt - 1]
+    w = d.ty.valmap(d.t)[nk]
+    st.assume(z3.Implies(kt <= 0, F(d.t, pos, kt) == 0),
+              z3.Implies(kt > 0, F(d.t, pos, kt) == F(d.t, pos, kt - 1) + pos[nk] * w))
+    return Val(TReal, F(d.t, pos, kt))
